@@ -277,6 +277,9 @@ def write_evidence(ctx, spec, violations):
     cov['checker_cmd'] = 'cd /verif/coq && ./mk.sh && make -j16 %s  (coqc 8.16.1, full .vo build; thorough adds coqchk -o)' % ' '.join(p + 'o' for p in spec['props'])
     cov['trusted_base'] = spec.get('trusted', []) + ['axioms used: ' + (', '.join(sorted(ctx.axioms)) or 'none (closed under the global context)')]
     cov['rule'] = spec.get('rule', '')
+    if getattr(ctx, 'history_fns', None):
+        cov['rule'] += (' History replays (vlib/history.py): %s called after in-place overwriting of the same argument objects, after a call with arguments within 1e-12..1e-5 '
+                        'of the present ones, after the caller scribbled over a returned array, and interleaved with unrelated calls; each compared with a freshly reloaded module.' % ', '.join(ctx.history_fns))
     cov['theorems'] = ctx.theorems
     cov['input_distribution'] = ctx.dist
     cov['broken'] = [b.as_dict() for b in ctx.broken]
@@ -361,6 +364,7 @@ def run(pid, tier, seed, spec):
             failures = spec['search'](ctx) or []
         except Exception as e:
             ctx.broken.append(Broken('search', 'search harness error: %s: %s' % (type(e).__name__, e), traceback.format_exc()))
+    failures = list(failures) + history_failures(ctx, spec)
     new_failures = []
     for f in failures:
         matched = None
@@ -390,6 +394,20 @@ def run(pid, tier, seed, spec):
     return 1 if violations else 0
 
 
+def history_failures(ctx, spec):
+    """history-independence replays of the property's pure API functions (vlib/history.py): always run, after the search so that its random stream is unchanged"""
+    try:
+        from . import history, histentries
+        entries = spec.get('history') or histentries.ENTRIES.get(ctx.pid)
+        if not entries:
+            return []
+        ctx.history_fns = sorted(set(e['mod'].split('.')[-1] + '.' + e['fn'] for e in entries))
+        return history.run(ctx, entries)
+    except Exception as e:
+        ctx.broken.append(Broken('search', 'history harness error: %s: %s' % (type(e).__name__, e), traceback.format_exc()))
+        return []
+
+
 def replay(pid, spec, path):
     """re-execute a recorded violation against the current /repo: the property's search harness is run again with the recorded seed and tier
     (in its deeper mode if obligations were broken when the file was written) and the recorded failing input is looked up among the failures.
@@ -404,7 +422,7 @@ def replay(pid, spec, path):
     with Lock():
         if data.get('broken'):
             ctx.broken = [Broken(b.get('kind', 'obligation'), b.get('what', ''), '') for b in data['broken']]
-        fails = spec['search'](ctx) or []
+        fails = list(spec['search'](ctx) or []) + history_failures(ctx, spec)
     want = data['failure']
     key = lambda f: (f.get('replay'), f.get('class'), f.get('what'))
     same = [f for f in fails if key(f) == key(want)] or [f for f in fails if f.get('class') == want.get('class') and f.get('what') == want.get('what')]
